@@ -8,6 +8,7 @@ from harness import steps
 from harness.common import cf, close, differential, hexf, unhex
 from harness.props import c01
 from harness.props.c01 import cposes, mk_poses, perturb, traj_from
+from harness.props.c09 import rot_from_quat
 from harness.props.c09 import H, U, cm3, cv3, rand_rot
 
 ID = "C04"
@@ -146,6 +147,21 @@ def expr(case, out):
 _sv, _mv = c01._sv, c01._mv
 
 
+def np_umeyama(x, y, with_scale):
+    """Umeyama's closed form written independently of evo and of the Coq model (numpy only): x, y are 3 x n"""
+    n = x.shape[1]
+    mx, my = x.mean(axis=1, keepdims=True), y.mean(axis=1, keepdims=True)
+    cov = (y - my) @ (x - mx).T / n
+    u, d, vt = np.linalg.svd(cov)
+    sgn = np.eye(3)
+    if np.linalg.det(u) * np.linalg.det(vt) < 0:
+        sgn[2, 2] = -1.0
+    r = u @ sgn @ vt
+    c = float((d * np.diag(sgn)).sum() / (((x - mx) ** 2).sum() / n)) if with_scale else 1.0
+    t = (my - c * r @ mx).ravel()
+    return r, t, c
+
+
 def flat(p):
     return list(p[:3, :3].reshape(9)) + list(p[:3, 3])
 
@@ -222,6 +238,12 @@ def judge(case, val, out):
         mp, mr, mt_, mc = model
         if not np.allclose(r.reshape(9), [float(v) for v in mr], atol=1e-9) or not close(c, float(mc), rtol=1e-9) \
                 or not np.allclose(t, [float(v) for v in mt_], rtol=1e-9, atol=1e-9 * scale):
+            orr, ot, oc = np_umeyama(x.T, y.T, case["cs"] or case["os"])
+            if np.allclose(orr.reshape(9), [float(v) for v in mr], atol=1e-7) and close(oc, float(mc), rtol=1e-7) \
+                    and np.allclose(ot, [float(v) for v in mt_], rtol=1e-7, atol=1e-7 * scale):
+                # the Coq model and an independent numpy Umeyama on the first n pose pairs agree with each other
+                return _sv("the returned (r, t, s) is not the least-squares alignment of the first n pose pairs in the requested "
+                           "mode (Coq model and an independent numpy evaluation agree): s = %r, expected %r" % (c, float(mc)))
             return _mv("returned (r, t, s) differs from the model (first-n selection / scale mode?)", "Align.align")
         if not poses_close(after, from_model(mp), scale):
             return _mv("aligned poses differ from the model", "Align.align")
@@ -300,6 +322,8 @@ def gen(ctx):
         ref, est = pair(n, noise, s, planar=(i % 5 == 3))
         mode = i % 3
         nn = -1 if i % 4 else int(rng.integers(3, n + 1))
+        if i % 16 == 8:
+            nn = n      # n given explicitly and equal to the number of poses: the same alignment as n = -1
         cases.append({"kind": "align", "est": [H(p) for p in est], "ref": [H(p) for p in ref], "cs": mode == 1, "os": mode == 2,
                       "n": nn, "from_quat": bool(i % 2), "twice": bool(noise > 0 and noise < 1.0 and n >= 6 and i % 2 == 0)})
     # trajectories of different length (not synchronised): align() must refuse, not align against a prefix
@@ -316,6 +340,23 @@ def gen(ctx):
     for i in range(ctx.n(30, 150)):
         n = int(rng.integers(1, 30))
         ref, est = pair(n, 0.05, 1.0)
+        cases.append({"kind": "origin", "est": [H(p) for p in est], "ref": [H(p) for p in ref], "from_quat": bool(i % 2)})
+    for i in range(ctx.n(12, 60)):
+        # geo-referenced (UTM-like) coordinates: the origins are metres apart, which is tiny RELATIVE to the coordinates;
+        # identical or slightly different start orientations
+        n = int(rng.integers(2, 20))
+        off = np.array([4.5e5, 5.6e6, 300.0]) * float(rng.choice([1.0, 0.1]))
+        ref = mk_poses(rng, n, 5.0, 0.0, rot_mode="smooth")
+        for k, p in enumerate(ref):
+            p[:3, 3] = off + np.array([0.5 * k, math.sin(0.3 * k), 0.05 * k])
+        shift = rng.normal(size=3) * float(rng.choice([0.5, 2.0])) * np.array([1.0, 1.0, 1e-3])   # (same altitude to a millimetre)
+        est = []
+        for p in ref:
+            q = p.copy()
+            q[:3, 3] = q[:3, 3] + shift + rng.normal(size=3) * 0.01 * np.array([1.0, 1.0, 1e-2])
+            if i % 3 == 2:
+                q[:3, :3] = q[:3, :3] @ rot_from_quat(np.array([1.0, 1e-3, -2e-3, 1e-3]))
+            est.append(q)
         cases.append({"kind": "origin", "est": [H(p) for p in est], "ref": [H(p) for p in ref], "from_quat": bool(i % 2)})
     combos = [(a, c, o) for a in (False, True) for c in (False, True) for o in (False, True)]
     for i in range(ctx.n(32, 160)):
